@@ -287,6 +287,7 @@ func runC02(c *Ctx) {
 	c.rule("C02.V3", knownWorkDoc, func() { c.knownWorkLoop() })
 
 	c.rule("C02.V2", checkpointFloorDoc, func() { c.checkpointFloor() })
+	c.rule("C02.G6", "no reorganisation below the last checkpoint reached: "+prevCheckpointFromFirstDoc, func() { c.prevCheckpointFromFirst() })
 
 	c.rule("C02.V4", branchOwnAncestorsDoc, func() { c.branchOwnAncestors() })
 
